@@ -8,6 +8,7 @@ RID_BITS = 32
 IDX_BITS = 64
 LIT_BASE = 0x20000000
 FRESH_BASE = 0x40000000
+ABSTRACT_BASE = 0x60000000   # ids of objects allocated inside abstracted code (loop iterations, callees)
 MAXLEN = 1 << 47
 
 
